@@ -282,7 +282,7 @@ def h_est_real_lib(d: bool):
         ok = must_raise
         status = 'incomplete'
     except Exception as e:
-        ok, status = False, 'raised:' + type(e).__name__
+        ok, status = False, 'raised:' + type(e).__name__ + ':' + str(e)[:200]
     return finish(ok, status, len(idx))
 
 
